@@ -122,8 +122,32 @@ def alias_of(ident):
 
 
 def identifiers(tree):
-    from vf.oracles.struct import walk
-    return [n for n in walk(tree) if type(n).__name__ == 'Identifier']
+    """the Identifier nodes that belong to the statement: reflection over public attributes only (a private
+    back-pointer such as `_orig_node`, which the join planner leaves on a copied condition, is not part of the query)"""
+    from vf.oracles.struct import _is_node
+    out, seen = [], set()
+
+    def go(o):
+        if id(o) in seen:
+            return
+        if isinstance(o, (list, tuple, set, frozenset)):
+            seen.add(id(o))
+            for x in o:
+                go(x)
+        elif isinstance(o, dict):
+            seen.add(id(o))
+            for k, v in o.items():
+                go(k)
+                go(v)
+        elif _is_node(o):
+            seen.add(id(o))
+            if type(o).__name__ == 'Identifier':
+                out.append(o)
+            for k, v in vars(o).items():
+                if not k.startswith('_'):
+                    go(v)
+    go(tree)
+    return out
 
 
 def expected_routes(tree, cat):
